@@ -131,6 +131,10 @@ type cluster struct {
 	leaseMutex   sync.RWMutex
 	sessionMutex sync.RWMutex
 
+	// mutexes holds the one Mutex of every lock name handed out by this member.
+	mutexes      map[string]*mutex
+	mutexesMutex sync.Mutex
+
 	done chan struct{}
 }
 
